@@ -233,8 +233,9 @@ func (c *Component) pruneOrphanedAcctEntries(now time.Time) int {
 // and returns the cumulative-from-session-start values for the four
 // RADIUS accounting octet / packet attributes.
 //
-// On a counter regress (current < CurrentBaseline) the underlying VPP
-// interface has been recreated or renumbered. Pre-regress traffic is
+// On a counter regress (current < CurrentBaseline, or the cumulative it
+// yields is below LastReported) the underlying VPP interface has been
+// recreated or renumbered. Pre-regress traffic is
 // folded into PriorDelta from LastReported, the new live counter
 // becomes CurrentBaseline, and the next cumulative continues from
 // LastReported without a billing dip.
@@ -245,6 +246,17 @@ func (s *AccountingSession) applyVPPCounters(stats *southbound.InterfaceStats) (
 		stats.TxBytes < s.currentBaselineOutBytes ||
 		stats.Rx < s.currentBaselineInPackets ||
 		stats.Tx < s.currentBaselineOutPackets
+
+	// The baseline is re-anchored at zero after every rebaseline (and is
+	// zero for a fresh session), so comparing the live counter with it
+	// alone never sees a restart. A cumulative below what the billing
+	// server has already acknowledged means the live counter restarted.
+	if !regressed {
+		regressed = (stats.RxBytes-s.currentBaselineInBytes)+s.priorDeltaInBytes < s.lastReportedInOctets ||
+			(stats.TxBytes-s.currentBaselineOutBytes)+s.priorDeltaOutBytes < s.lastReportedOutOctets ||
+			(stats.Rx-s.currentBaselineInPackets)+s.priorDeltaInPackets < s.lastReportedInPackets ||
+			(stats.Tx-s.currentBaselineOutPackets)+s.priorDeltaOutPackets < s.lastReportedOutPackets
+	}
 
 	if regressed {
 		s.priorDeltaInBytes = s.lastReportedInOctets
